@@ -12,6 +12,8 @@ import (
 	"net"
 	"sync"
 	"time"
+
+	"github.com/postalsys/muti-metroo/internal/vmc/sched"
 )
 
 // DialRecord is one recorded dial.
@@ -129,6 +131,15 @@ func Pipe(local, remote *net.TCPAddr) (a, b *Conn) {
 }
 
 func (c *Conn) Read(p []byte) (int, error) {
+	// under the controlled scheduler a read is a blocking scheduling point: the thread is enabled
+	// when bytes are buffered or either side closed (a real cond.Wait would park the token holder)
+	if sched.Active() {
+		sched.Block("conn-read", func() bool {
+			c.in.mu.Lock()
+			defer c.in.mu.Unlock()
+			return len(c.in.buf) > 0 || c.in.closed || c.rclosed
+		})
+	}
 	c.in.mu.Lock()
 	defer c.in.mu.Unlock()
 	for len(c.in.buf) == 0 && !c.in.closed && !c.rclosed {
